@@ -183,8 +183,10 @@ class LaxBoundedSemaphore(_Semaphore):
                 self._initial_value -= 1
 
         def clear(self):
-            while self._value < self._initial_value:
-                _Semaphore.release(self)
+            with self._cond:
+                if self._value < self._initial_value:
+                    self._value = self._initial_value
+                    self._cond.notify_all()
     else:
 
         def __init__(self, value=1, verbose=None):
